@@ -1220,6 +1220,11 @@ class Client:
             if self.ignore_exc:
                 return {}
             raise
+        except BaseException:
+            # KeyboardInterrupt, SystemExit, gevent.Timeout, ...: the reply may
+            # still be unread, so this connection must not be used again.
+            self.close()
+            raise
 
     def _store_cmd(
         self,
@@ -1303,7 +1308,7 @@ class Client:
                 else:
                     raise MemcacheUnknownError(line[:32])
             return results
-        except Exception:
+        except BaseException:
             self.close()
             raise
 
@@ -1347,7 +1352,7 @@ class Client:
                 results.append(line)
             return results
 
-        except Exception:
+        except BaseException:
             self.close()
             raise
 
